@@ -485,6 +485,38 @@ def orm_memo(prog: Program) -> RuleResult:
             )
     if n == 0:
         raise AnalysisError("ORM-MEMO: no memoised stateful method found (WrappedTable.parse_fields is the confirmed instance)")
+    # what a memoised step has produced stays: the step will not run again for the same receiver, so a list it appended to must not be
+    # emptied or replaced by anything but the constructor - a "clean slate" before a second make_all_tables() is a slate the memoised
+    # parse_fields never refills
+    from ..callgraph import self_closure
+
+    produced = {}
+    for c in sorted(prog.classes.values(), key=lambda x: x.qual):
+        if ".ormatic." not in c.qual:
+            continue
+        for name, f in sorted(c.methods.items()):
+            if not f.is_lru_cache:
+                continue
+            for g in self_closure(prog, c.qual, f, False)[0]:
+                for x in calls_in(g.node):
+                    if isinstance(x.func, ast.Attribute) and x.func.attr in ("append", "add", "extend", "update", "setdefault", "insert") and isinstance(x.func.value, ast.Attribute):
+                        produced.setdefault(x.func.value.attr, f)
+    for fld, f in sorted(produced.items()):
+        wiped = None
+        for g in sorted(prog.functions.values(), key=lambda x: x.qual):
+            if ".ormatic." not in g.qual or g.name in ("__init__", "__post_init__"):
+                continue
+            for x in walk_local(g.node):
+                if isinstance(x, ast.Assign) and any(isinstance(t, ast.Attribute) and t.attr == fld for t in x.targets):
+                    wiped = wiped or (g, x)
+                if isinstance(x, ast.Call) and isinstance(x.func, ast.Attribute) and x.func.attr == "clear" and isinstance(x.func.value, ast.Attribute) and x.func.value.attr == fld:
+                    wiped = wiped or (g, x)
+                if isinstance(x, ast.Delete) and any(isinstance(t, (ast.Subscript, ast.Attribute)) and fld in src(t) for t in x.targets):
+                    wiped = wiped or (g, x)
+        r.check(wiped is None, f"{fld}#produced-by-a-memoised-step-and-kept", site(wiped[0], wiped[1]) if wiped else site(f), src(wiped[1])[:80] if wiped else f"filled by {f.short}",
+                f"nothing but a constructor empties or replaces .{fld}",
+                f"{wiped[0].short if wiped else ''} resets .{fld}, which the memoised {f.short} fills: the step does not run again for the same receiver, so after the reset the entries are gone "
+                "for good - a second make_all_tables() / to_sqlalchemy_file() from the same ORMatic writes relationships with secondary='..._association' and no such Table")
     return r
 
 
